@@ -1,35 +1,47 @@
 ---------------------------- MODULE AtomVer_MC ----------------------------
-(* Design check of the version order used by the atom specs: over a bounded grammar of
-   versions TLC visits every triple (one state each) and checks that VerCmp is a total
-   preorder, that the six operators are the usual readings of it, and the laws that tie the
-   glob operator to the order.                                                           *)
+(* Design check of the version order used by the atom specs (C03/C04/C05): over a bounded
+   grammar of versions TLC visits every triple (one state each) and checks that VerCmp is a
+   total preorder, that the six operators are the usual readings of it, and the laws that tie
+   the glob operator to the order.  Pair laws are only evaluated on the states with z = x.  *)
 EXTENDS AtomVer, TLC
-CONSTANTS Size          \* 1 = quick grammar, 2 = thorough grammar
-D(n) == IF n < 10 THEN <<n>> ELSE <<n \div 10, n % 10>>
-GVers == IF Size = 1
-         THEN VersOf({<<1>>, <<2>>, <<1, 0>>}, {<<0>>, <<1>>, <<0, 1>>, <<1, 0>>}, 2, {0, 1}, {"alpha", "p"}, {<<>>, <<1>>}, 1, {<<>>, <<0>>, <<1>>})
-         ELSE VersOf({<<0>>, <<1>>, <<2>>, <<1, 0>>}, {<<0>>, <<1>>, <<0, 1>>, <<1, 0>>, <<0, 1, 0>>}, 2, {0, 1, 2}, {"alpha", "rc", "p"}, {<<>>, <<0>>, <<1>>}, 1, {<<>>, <<0>>, <<1>>, <<0, 1>>})
-VARIABLES x, y, z
-Init == x \in GVers /\ y \in GVers /\ z \in GVers
-Next == UNCHANGED <<x, y, z>>
-Spec == Init /\ [][Next]_<<x, y, z>>
+CONSTANTS Size          \* 1 = quick grammar, 2, 3 = thorough grammars
+Weight(v) == (Len(v.nums) - 1) + (IF v.letter # 0 THEN 1 ELSE 0) + Len(v.sufs) + (IF v.rev # <<>> THEN 1 ELSE 0)
+Small == VersOf({<<1>>, <<1, 0>>}, {<<0>>, <<0, 1>>, <<1>>}, 2, {0, 1},
+                {"alpha", "p"}, {<<>>, <<1>>}, 1, {<<>>, <<0>>, <<1>>})
+Base == VersOf({<<1>>, <<2>>, <<1, 0>>}, {<<0>>, <<1>>, <<0, 1>>, <<1, 0>>, <<0, 1, 0>>}, 2, {0, 1, 2},
+               {"alpha", "rc", "p"}, {<<>>, <<0>>, <<1>>}, 2, {<<>>, <<0>>, <<1>>, <<0, 1>>})
+Tiny == VersOf({<<1>>, <<1, 0>>}, {<<0>>, <<0, 1>>}, 2, {0, 1}, {"alpha", "p"}, {<<>>, <<1>>}, 1, {<<>>, <<1>>})
+GVers == TLCEval(IF Size = 1 THEN {v \in Tiny : Weight(v) <= 1}
+                 ELSE IF Size = 2 THEN {v \in Base : Weight(v) <= 1}
+                 ELSE {v \in Small : Weight(v) <= 2})
+ASSUME PrintT(<<"GVers", Cardinality(GVers)>>)
+VARIABLES x, y, z, ph
+vars == <<x, y, z, ph>>
+Init == x \in GVers /\ y = x /\ z = x /\ ph = 0
+Next == ph = 0 /\ ph' = 1 /\ x' = x /\ y' \in GVers /\ z' \in GVers
+Spec == Init /\ [][Next]_vars
 
-Refl     == VerCmp(x, x) = 0
-AntiSym  == VerCmp(x, y) = 0 - VerCmp(y, x)
+Refl     == ph = 0 => VerCmp(x, x) = 0
+AntiSym  == z = x => VerCmp(x, y) = 0 - VerCmp(y, x)
 Trans    == (VerCmp(x, y) <= 0 /\ VerCmp(y, z) <= 0) => VerCmp(x, z) <= 0
 TransEq  == (VerCmp(x, y) = 0 /\ VerCmp(y, z) = 0) => VerCmp(x, z) = 0
-Ops      == /\ (OpHolds("<=", x, y) <=> (OpHolds("<", x, y) \/ OpHolds("=", x, y)))
+Ops      == z = x =>
+            /\ (OpHolds("<=", x, y) <=> (OpHolds("<", x, y) \/ OpHolds("=", x, y)))
             /\ (OpHolds(">=", x, y) <=> (OpHolds(">", x, y) \/ OpHolds("=", x, y)))
             /\ (OpHolds("<", x, y) <=> OpHolds(">", y, x))
             /\ Cardinality({o \in {"<", "=", ">"} : OpHolds(o, x, y)}) = 1
             /\ (OpHolds("~", x, y) <=> OpHolds("=", NoRev(x), NoRev(y)))
-\* glob laws: own version, equality never contradicts the glob, prefix-of-prefix, congruence
-GlobSelf == Glob(x, x) = "T"
-GlobEq   == (OpHolds("=", y, x) => Glob(x, y) # "F") /\ (x.rev = <<>> /\ OpHolds("~", y, x) => Glob(x, y) # "F")
+\* glob laws: own version, equality never contradicts the glob, prefix-of-prefix
+GlobSelf == ph = 0 => Glob(x, x) = "T"
+GlobEq   == z = x => /\ (OpHolds("=", y, x) => Glob(x, y) # "F")
+                     /\ (x.rev = <<>> /\ OpHolds("~", y, x) => Glob(x, y) # "F")
 GlobTrans == (Glob(x, y) = "T" /\ y.rev = <<>> /\ Glob(y, z) = "T") => Glob(x, z) = "T"
-\* a version with a revision written in the glob only ever matches that very revision
-GlobRev  == (x.rev # <<>> /\ Glob(x, y) # "F") => VerCmp(x, y) = 0
+\* a (non-zero) revision written in the glob only ever matches that very revision
+GlobRev  == z = x => ((NatCmp(x.rev, <<>>) # 0 /\ Glob(x, y) # "F") => VerCmp(x, y) = 0)
+\* a glob without revision matches every revision of what it matches
+GlobAnyRev == z = x => (x.rev = <<>> => Glob(x, y) = Glob(x, NoRev(y)))
 \* the text is faithful: equal records <=> equal text
-TextInj  == (VerText(x) = VerText(y)) <=> (x = y)
-IncLaw   == NatCmp(DigInc(x.rev), x.rev) = 1 /\ (NatCmp(y.rev, x.rev) = 1 => NatCmp(y.rev, DigInc(x.rev)) >= 0)
+TextInj  == z = x => ((VerText(x) = VerText(y)) <=> (x = y))
+IncLaw   == z = x => /\ NatCmp(DigInc(x.rev), x.rev) = 1
+                     /\ (NatCmp(y.rev, x.rev) = 1 => NatCmp(y.rev, DigInc(x.rev)) >= 0)
 =========================================================================
